@@ -994,6 +994,127 @@ def run_sub_case(impl: Impl, sc):
     return "%s calls=%s" % (shown, calls)
 
 
+# ------------------------------------------------------------------------------------------------ nested control flow
+# Implementation-only oracle (the model has no nesting): callbacks whose bodies call further constructors.
+
+
+def gen_tree(rng, depth):
+    kind = rng.choice(KINDS)
+    ncb = 2 if kind == "if" else 1
+    return {"kind": kind, "inner": [[gen_tree(rng, depth - 1) for _ in range(0 if depth == 0 else rng.randint(0, 2))]
+                                    for _ in range(ncb)]}
+
+
+def tree_size(t):
+    return 1 + sum(tree_size(c) for cb in t["inner"] for c in cb)
+
+
+def tree_depth(t):
+    return 1 + max([tree_depth(c) for cb in t["inner"] for c in cb] or [0])
+
+
+def run_nested(impl: Impl, tree, mod_name, builds):
+    """Returns a list of (key, what, detail)."""
+    np = impl.np
+    op = impl.mod(mod_name)
+    f32 = impl.Tensor(np.float32, (2,))
+    x0 = impl.argument(f32)
+    cond = impl.argument(impl.Tensor(np.bool_, ()))
+    trips = impl.argument(impl.Tensor(np.int64, ()))
+    scanned = impl.argument(impl.Tensor(np.float32, (SEQ_LEN, 2)))
+    counts, bad, ids = {}, [], [0]
+
+    def register(kind, spec):
+        cid = ids[0]
+        ids[0] += 1
+        counts[cid] = 0
+        return cid
+
+    def called(cid, kind, args, spec):
+        counts[cid] += 1
+        got = [impl.desc_of(a.type) for a in args]
+        if spec is not None and not args_match(spec, got):
+            bad.append(("C19/nested/%s/arg-types" % kind, "a nested callback received argument types that differ from the ONNX prescription",
+                        {"prescribed": [str(t) for t in spec], "received": [impl.show_t(g) for g in got]}))
+
+    def chain(trees, x):
+        for t in trees:
+            x = emit(t, x)
+        return x
+
+    def emit(t, x):
+        k = t["kind"]
+        dx = impl.desc_of(x.type)
+        if k == "if":
+            c_else, c_then = register(k, []), register(k, [])
+
+            def else_():
+                called(c_else, k, (), [])
+                return [chain(t["inner"][0], x)]
+
+            def then_():
+                called(c_then, k, (), [])
+                return [chain(t["inner"][1], op.add(x, x))]
+
+            return op.if_(cond, else_branch=else_, then_branch=then_)[0]
+        if k == "loop":
+            cid = register(k, None)
+            spec = spec_args(["loop", [dx], 0])[0]
+
+            def body(i, c, a):
+                called(cid, k, (i, c, a), spec)
+                return [c, chain(t["inner"][0], a)]
+
+            return op.loop(trips, None, [x], body=body)[0]
+        if k == "scan":
+            cid = register(k, None)
+            sp = spec_args(["scan", [dx, T("float32", [SEQ_LEN, 2])], 1, None, None, 0])
+            spec = sp[0] if sp else None
+
+            def body(st, el):
+                called(cid, k, (st, el), spec)
+                return (v for v in [chain(t["inner"][0], op.add(st, el))])
+
+            return op.scan([x, scanned], body=body, num_scan_inputs=1)[0]
+        cid = register(k, None)
+        sp = spec_args(["seqmap", ["S", dx], [], 0])
+        spec = sp[0] if sp else None
+
+        def body(e):
+            called(cid, k, (e,), spec)
+            return (chain(t["inner"][0], e),)
+
+        out = op.sequence_map(op.sequence_construct([x, x]), body=body)[0]
+        return op.reshape(op.sequence_at(out, op.const(0)), op.const(np.array([2], dtype=np.int64)))
+
+    try:
+        with warnings.catch_warnings():
+            warnings.simplefilter("ignore")
+            y = emit(tree, x0)
+            if [c for c in counts.values() if c != 1]:
+                bad.append(("C19/nested/callback-count", "nested callbacks were not invoked exactly once each during construction",
+                            {"counts": dict(counts)}))
+            y = op.reshape(y, op.const(np.array([2], dtype=np.int64)))
+            for b in range(builds):
+                model = impl.spox.build({"x": x0, "cond": cond, "trips": trips, "scanned": scanned}, {"y": y})
+                if [c for c in counts.values() if c != 1]:
+                    bad.append(("C19/nested/called-again-on-build", "a nested callback was invoked again by spox.build",
+                                {"counts": dict(counts), "build": b + 1}))
+                    break
+    except Exception as e:  # noqa: BLE001
+        return bad, "%s: %s" % (type(e).__name__, str(e)[:300])
+    if builds:
+        try:  # onnxruntime cannot load every nesting (SequenceMap is expanded as a function): counted, not judged
+            sess = impl.ort.InferenceSession(model.SerializeToString(), providers=["CPUExecutionProvider"])
+            (val,) = sess.run(None, {"x": np.ones(2, np.float32), "cond": np.array(True), "trips": np.array(TRIPS),
+                                     "scanned": np.ones((SEQ_LEN, 2), np.float32)})
+            if val.shape != (2,) or val.dtype != np.float32:
+                bad.append(("C19/nested/runtime-value", "nested model produced a value of unexpected type", {"shape": list(val.shape)}))
+        except Exception as e:  # noqa: BLE001
+            return bad, "onnxruntime: %s" % type(e).__name__
+    return bad, None
+
+
 # ------------------------------------------------------------------------------------------------ shrinking
 
 
@@ -1232,8 +1353,28 @@ def run(run: Run) -> int:
             run.fail("corr", "C19/subgraph-model-vs-impl", "model and implementation disagree on a direct subgraph() call",
                      {"subgraph_call": sc, "impl": sub_impl[i], "model": sub_fixed[i], "model_of_unchanged_tree": sub_orig[i]})
             break
+    # nested control flow (implementation-only oracle)
+    n_nested = 60 if quick else 600
+    nested_hist = {"size": {}, "depth": {}, "errors": 0}
+    for j in range(n_nested):
+        tree = gen_tree(rng, rng.randint(1, 3))
+        mod_name, nb = rng.choice(MODS), rng.randint(0, 3)
+        nbad, err = run_nested(impl, tree, mod_name, nb)
+        nested_hist["size"][tree_size(tree)] = nested_hist["size"].get(tree_size(tree), 0) + 1
+        nested_hist["depth"][tree_depth(tree)] = nested_hist["depth"].get(tree_depth(tree), 0) + 1
+        for key, what, detail in nbad:
+            run.fail("impl", key, what, {"nested": {"tree": tree, "module": mod_name, "builds": nb}, "violation": detail})
+        if err and err.startswith("onnxruntime:"):
+            nested_hist["onnxruntime_could_not_run"] = nested_hist.get("onnxruntime_could_not_run", 0) + 1
+        elif err:
+            nested_hist["errors"] += 1
+            if not nbad and not found:
+                run.fail("corr", "C19/nested/session-failed", "a nested session could not be constructed / built / run",
+                         {"nested": {"tree": tree, "module": mod_name, "builds": nb}, "error": err})
+    hist["nested"] = nested_hist
     cov = {
-        "evaluations": len(cases) + n_sub,
+        "evaluations": len(cases) + n_sub + n_nested,
+        "nested_sessions_oracle_only": n_nested,
         "distinct_nontrivial": len(distinct),
         "rule": "sessions = constructor calls (if_/loop/scan/sequence_map, modules v17..v21 incl. the re-exporting v18/v20) with 0-3 carried / "
                 "state / scanned / additional operands of random element type, rank 0-3, unknown and symbolic dims, unknown rank, sequences "
@@ -1270,7 +1411,13 @@ def run(run: Run) -> int:
 def replay(run: Run, case) -> int:
     impl = Impl()
     d = case["detail"]
-    if "subgraph_call" in d:
+    if "nested" in d:
+        nd = d["nested"]
+        nbad, err = run_nested(impl, nd["tree"], nd["module"], nd["builds"])
+        print("nested session:", json.dumps(nd))
+        print("oracle violations:", nbad, "error:", err)
+        bad = bool(nbad) or bool(err)
+    elif "subgraph_call" in d:
         sc = d["subgraph_call"]
         got = run_sub_case(impl, sc)
         m = [parse_coq_string(r) for r in run.coq_eval("replay", HEADER, [sub_expr(sc, True), sub_expr(sc, False)])]
